@@ -154,3 +154,134 @@ func runMutant(self, id, repo, verif, name string) mutantResult {
 	res.Status = "MISSED"
 	return res
 }
+
+// Negative self-tests of the thorough tier: behaviour-preserving commits (/verif/refactors/<name>/patch.diff) recorded
+// as silent in refactors/silent.json. For the property under check, every recorded commit that touches one of the
+// property's anchor files is applied to a scratch copy of the CURRENT working tree and analysed; the check must stay
+// silent. A commit that now alarms means a recogniser lost generality (a false alarm in waiting); it is reported as an
+// undecided self-test, like a missed mutant. Patches that no longer apply are skipped.
+func runNegativeSelftests(r *Report, id, repo, verif string) {
+	b, err := os.ReadFile(filepath.Join(verif, "refactors", "silent.json"))
+	if err != nil {
+		return // no record: nothing to re-check
+	}
+	var rec struct {
+		Silent []string `json:"silent"`
+	}
+	if json.Unmarshal(b, &rec) != nil || len(rec.Silent) == 0 {
+		return
+	}
+	anchors := propertyAnchorFiles(verif, id)
+	var names []string
+	for _, n := range rec.Silent {
+		pb, err := os.ReadFile(filepath.Join(verif, "refactors", n, "patch.diff"))
+		if err != nil {
+			continue
+		}
+		touches := false
+		for _, l := range strings.Split(string(pb), "\n") {
+			if strings.HasPrefix(l, "+++ b/") {
+				f := strings.TrimPrefix(l, "+++ b/")
+				for _, g := range anchors {
+					if ok, _ := filepath.Match(g, f); ok {
+						touches = true
+					}
+				}
+			}
+		}
+		if touches {
+			names = append(names, n)
+		}
+	}
+	sort.Strings(names)
+	if len(names) == 0 {
+		return
+	}
+	self, _ := os.Executable()
+	type res struct{ name, status string }
+	results := make([]res, len(names))
+	sem := make(chan struct{}, 6)
+	var wg sync.WaitGroup
+	for i, n := range names {
+		wg.Add(1)
+		go func(i int, n string) {
+			defer wg.Done()
+			sem <- struct{}{}
+			defer func() { <-sem }()
+			results[i] = res{n, runRefactor(self, id, repo, verif, n)}
+		}(i, n)
+	}
+	wg.Wait()
+	silent, skipped := 0, 0
+	for _, m := range results {
+		switch m.status {
+		case "silent":
+			silent++
+		case "skipped":
+			skipped++
+		default:
+			r.Undecided(id+"-selftest", "behaviour-preserving commit "+m.name+" stays silent", "-", "the check reports a violation on a scratch copy with refactors/"+m.name+"/patch.diff applied although the corpus records it as silent: a recogniser lost generality ("+m.status+")")
+		}
+	}
+	r.OK(id+"-selftest", "behaviour-preserving commits touching the property's anchor files stay silent", "-", "scratch copies analysed", fmt.Sprintf("%d commits: %d silent, %d skipped (patch no longer applies)", len(names), silent, skipped))
+	r.Extra["selftest_refactors"] = fmt.Sprintf("%d behaviour-preserving commits re-checked for %s: %d silent, %d skipped", len(names), id, silent, skipped)
+}
+
+// propertyAnchorFiles: the anchor file globs of a property (properties.jsonl)
+func propertyAnchorFiles(verif, id string) []string {
+	b, err := os.ReadFile(filepath.Join(verif, "properties.jsonl"))
+	if err != nil {
+		return nil
+	}
+	for _, l := range strings.Split(string(b), "\n") {
+		var p struct {
+			ID      string `json:"id"`
+			Anchors struct {
+				Files []string `json:"files"`
+			} `json:"anchors"`
+		}
+		if json.Unmarshal([]byte(l), &p) == nil && p.ID == id {
+			return p.Anchors.Files
+		}
+	}
+	return nil
+}
+
+func runRefactor(self, id, repo, verif, name string) string {
+	tmp, err := os.MkdirTemp("", "dhcpverif-refactor-")
+	if err != nil {
+		return "skipped"
+	}
+	defer os.RemoveAll(tmp)
+	src := filepath.Join(tmp, "repo")
+	if out, err := exec.Command("rsync", "-a", "--exclude", ".git", repo+"/", src+"/").CombinedOutput(); err != nil {
+		_ = out
+		return "skipped"
+	}
+	pp := exec.Command("patch", "-p1", "-s", "-F0", "-d", src, "-i", filepath.Join(verif, "refactors", name, "patch.diff"))
+	if _, err := pp.CombinedOutput(); err != nil {
+		return "skipped"
+	}
+	tv := filepath.Join(tmp, "verif")
+	os.MkdirAll(filepath.Join(tv, "spec"), 0o755)
+	for _, f := range []string{"spec/ledger.json", "spec/layouts.json", "spec/builders.json", "spec/constants.json", "spec/rejects.json", "known_findings.json"} {
+		if b, err := os.ReadFile(filepath.Join(verif, f)); err == nil {
+			os.WriteFile(filepath.Join(tv, f), b, 0o644)
+		}
+	}
+	cmd := exec.Command(self, "check", id, "--tier", "quick", "--repo", src, "--verif", tv)
+	out, _ := cmd.CombinedOutput()
+	switch code := cmd.ProcessState.ExitCode(); {
+	case code == 0:
+		return "silent"
+	case code == 1:
+		for _, l := range strings.Split(string(out), "\n") {
+			if i := strings.Index(l, "rule="); i >= 0 {
+				return "alarm: " + strings.Fields(l[i+5:])[0]
+			}
+		}
+		return "alarm"
+	default:
+		return fmt.Sprintf("analyser terminated with status %d", code)
+	}
+}
